@@ -6,7 +6,7 @@
 (* them on recorded events; the MC_* models evaluate the same operators on *)
 (* exhaustive small scopes.                                                *)
 (***************************************************************************)
-EXTENDS Wide, Rounding, TLC, FiniteSets
+EXTENDS Wide, Rounding, Text, TLC, FiniteSets
 
 OK == <<"ok">>
 Bad(why) == <<"bad", why>>
@@ -146,4 +146,13 @@ HashRemember(hs, a, r) ==
   IF "h" \notin DOMAIN r \/ HashLookup(hs, WNorm(a)) # 0 THEN hs ELSE Append(hs, <<WNorm(a), HashDigest(r)>>)
 \* a HashSet built from the values has exactly one entry per distinct value
 HashSetOK(xs, r) == IntIs(r, Cardinality({WNorm(xs[i]) : i \in 1..Len(xs)}))
+
+\* ---------------------------------------------------------------- C05: parsing
+IsErr(r) == "err" \in DOMAIN r
+\* text: code points (or bytes; every grammar character is ASCII, so a byte string is a numeral iff it is one as text)
+ParseOK(text, radix, validUtf8, r) ==
+  IF radix # 10 \/ ~validUtf8 THEN Chk(IsErr(r), "must-be-error")
+  ELSE IF IsNumeral(text)
+       THEN (IF ~IsD(r) THEN Bad("numeral-rejected") ELSE Chk(WOf(r.d) = ParseValue(text), "parsed-value"))
+       ELSE Chk(IsErr(r), "non-numeral-accepted-or-panic")
 =============================================================================
